@@ -19,11 +19,16 @@ class ObResult:
         self.name, self.kind, self.status, self.seconds, self.backend = name, kind, status, seconds, backend
         self.model, self.reason = model, reason
 
+    second = None       # (answer, seconds) of the second back end (cvc5), when it was asked
+
     def as_dict(self):
         d = {'name': self.name, 'kind': self.kind, 'result': self.status, 'seconds': round(self.seconds, 4),
              'backend': self.backend}
         if self.reason:
             d['reason'] = self.reason
+        if self.second is not None:
+            d['second_backend'] = {'backend': 'cvc5 1.0.3 (/usr/bin/cvc5 --strings-exp --dt-nested-rec --enum-inst)',
+                                   'result': self.second[0], 'seconds': round(self.second[1], 3)}
         return d
 
 
@@ -292,6 +297,9 @@ def _run(eng, world, contracts, qual, res, timeout_ms, concretise, keep_smt, onl
         raise Unsupported('no feasible path')
     # ---------------------------------------------------------------- discharge
     covered = False
+    _CVC5 = _os.environ.get('VERIF_CVC5') == '1'
+    _CVC5_TIMEOUT = float(_os.environ.get('VERIF_CVC5_TIMEOUT', '20'))
+    cvc5_deadline = time.time() + float(_os.environ.get('VERIF_CVC5_BUDGET', '600'))
     deadline = time.time() + float(_os.environ.get('VERIF_FN_BUDGET', '300' if timeout_ms <= 10000 else '1500'))
     nslow = 0
     for ob in eng.obls:
@@ -311,7 +319,11 @@ def _run(eng, world, contracts, qual, res, timeout_ms, concretise, keep_smt, onl
             if r == z3.unknown and _os.environ.get('VERIF_EXPLAIN') == '1':
                 _explain(ob.hyps, ob.goal, 0)
         if r == z3.unsat:
-            res.obligations.append(ObResult(ob.name, ob.kind, 'proved', dt))
+            orr = ObResult(ob.name, ob.kind, 'proved', dt)
+            if _CVC5 and time.time() < cvc5_deadline:
+                from . import cvc5x
+                orr.second = cvc5x.cross_check(ob.hyps, ob.goal, _CVC5_TIMEOUT)
+            res.obligations.append(orr)
         elif r == z3.sat:
             orr = ObResult(ob.name, ob.kind, 'refuted', dt, model=None)
             cm = None
